@@ -27,3 +27,6 @@
 ; a prefix of a suffix is a substring of the whole
 ;@for cpoff
 (assert (forall ((s Str) (a Int) (c Int)) (! (=> (and (<= 0 a) (<= 0 c) (<= (+ a c) (str_len s))) (= (str_sub (str_sub s a (str_len s)) 0 c) (str_sub s a (+ a c)))) :pattern ((str_sub (str_sub s a (str_len s)) 0 c)))))
+; bytes of a substring are bytes of the string
+;@for str_sub
+(assert (forall ((s Str) (a Int) (b Int) (k Int)) (! (=> (and (<= 0 a) (<= a b) (<= b (str_len s)) (<= 0 k) (< k (- b a))) (= (str_at (str_sub s a b) k) (str_at s (+ a k)))) :pattern ((str_at (str_sub s a b) k)))))
